@@ -138,17 +138,20 @@ void
 cu_iterator::move ()
 {
   assert (*this != end ());
-  do
+  while (true)
     {
       m_old_offset = m_offset;
       size_t hsize;
       if (dwarf_nextcu (m_dw, m_offset, &m_offset, &hsize,
 			nullptr, nullptr, nullptr) != 0)
 	done ();
-      else if (dwarf_offdie (m_dw, m_old_offset + hsize, &m_cudie) == nullptr)
+      else if (m_old_offset + hsize >= m_offset
+	       || dwarf_offdie (m_dw, m_old_offset + hsize,
+				&m_cudie) == nullptr)
+	// A unit without DIEs: skip it.
 	continue;
+      break;
     }
-  while (false);
 }
 
 void
